@@ -10,22 +10,102 @@ def _split_mapping_by_keys(mapping, key_lists, result):
     ensures(len(result) == len(key_lists))
     ensures(forall(0, len(result), lambda c: forall_int(lambda h:
             (h in result[c]) == (h in mapping and exists(0, len(key_lists[c]), lambda q: key_lists[c][q] == h)))))
+    ensures(forall(0, len(result), lambda c: forall_int(lambda h: implies(h in result[c], result[c][h] == mapping[h]))))
     loop(0, types={"mappings": "list[dict[int,list[tuple[int,real]]]]"}, inv=lambda it: len(mappings) == it
          and forall(0, it, lambda c: forall_int(lambda h:
-            (h in mappings[c]) == (h in mapping and exists(0, len(key_lists[c]), lambda q: key_lists[c][q] == h)))))
+            (h in mappings[c]) == (h in mapping and exists(0, len(key_lists[c]), lambda q: key_lists[c][q] == h))))
+         and forall(0, it, lambda c: forall_int(lambda h: implies(h in mappings[c], mappings[c][h] == mapping[h]))))
+
+
+@spec
+def same_array(a, b):
+    return len(a) == len(b) and forall(0, len(a), lambda i: a[i] == b[i])
+
+
+@spec
+def series_ok(series):
+    """What regrid needs of every series: as many abscissae as ordinates, at least two, abscissae increasing."""
+    return forall(0, len(series), lambda k: len(series[k][0]) == len(series[k][1]) and len(series[k][0]) >= 2
+                  and forall(0, len(series[k][0]), lambda j: forall(0, j, lambda i: series[k][0][i] < series[k][0][j])))
+
+
+@spec
+def head_mapping_ok(hm, n):
+    """Every level holds at least one crossing; the series ids at a level are increasing (hence distinct) positions
+    below n."""
+    return forall_int(lambda h: implies(h in hm, len(hm[h]) >= 1
+                                        and forall(0, len(hm[h]), lambda q: 0 <= hm[h][q][0] and hm[h][q][0] < n
+                                                   and forall(0, q, lambda p: hm[h][p][0] < hm[h][q][0]))))
+
+
+@contract("spowtd.fit_offsets:build_head_mapping",
+          args={"series": "list[tuple[array[real],array[real]]]", "head_step": "real"},
+          returns="dict[int,list[tuple[int,real]]]")
+def _build_head_mapping(series, head_step, result):
+    """Structure of the crossing table: per level a non-empty list of (series position, mean crossing) with the
+    series positions increasing.  (That the second component is the mean of that series' crossings of the level
+    is exercised by the table-level stand-in of C13.)"""
+    requires(head_step > 0)
+    requires(series_ok(series))
+    may_raise(ValueError)
+    ensures(head_mapping_ok(result, len(series)))
+    loop(0, types={"head_mapping": "dict[int,list[tuple[int,real]]]"}, inv=lambda it: head_mapping_ok(head_mapping, it))
+    loop(1, types={"all_times": "dict[int,list[real]]"},
+         inv=lambda it: forall_int(lambda h: implies(h in all_times, len(all_times[h]) >= 1)))
+    ghost(before="for head_id, time in list(all_times.items())", let="g_at", do=lambda: list(all_times.items()))
+    loop(2, types={"head_mapping": "dict[int,list[tuple[int,real]]]"},
+         inv=lambda it: forall_int(lambda h: implies(h in head_mapping, len(head_mapping[h]) >= 1
+             and forall(0, len(head_mapping[h]), lambda q: 0 <= head_mapping[h][q][0] and head_mapping[h][q][0] <= series_id
+                        and forall(0, q, lambda p: head_mapping[h][p][0] < head_mapping[h][q][0]))
+             and implies(head_mapping[h][len(head_mapping[h]) - 1][0] == series_id,
+                         exists(0, it, lambda j: g_at[j][0] == h)))))
+
+
+@contract("spowtd.fit_offsets:get_connected_components", args={"head_mapping": "dict[int,set[int]]"},
+          returns="list[list[int]]")
+def _get_connected_components(head_mapping, result):
+    """ASSUMED (groups are keyed by tuples of varying length: outside the subset; validated on all small overlap
+    structures by bounded.fit_checks:run_C08): every returned group is a list of levels of the mapping."""
+    may_raise(AssertionError)
+    ensures(forall(0, len(result), lambda c: forall(0, len(result[c]), lambda q: result[c][q] in head_mapping)))
 
 
 @contract("spowtd.fit_offsets:get_series_time_offsets",
           args={"series_list": "list[tuple[array[real],array[real]]]", "head_step": "real"},
           returns="tuple[list[int],array[real],dict[int,list[tuple[int,real]]]]")
 def _get_series_time_offsets(series_list, head_step, result):
-    """ASSUMED in this revision (validated by the bounded stand-ins of C05 / C08 / C13): the returned
-    indices are distinct positions of series_list, one offset per index, and every (series, crossing)
-    entry of the returned mapping names a returned index; each level holds at least two entries."""
+    """The returned indices are distinct positions of series_list, one offset per index; every level of the
+    returned mapping holds at least two entries and every entry names a returned index.  Proved from the contracts
+    of build_head_mapping, split_mapping_by_keys and find_offsets; get_connected_components enters through its
+    assumed contract."""
     requires(head_step > 0)
+    requires(series_ok(series_list))
     may_raise(ValueError)
     may_raise(AssertionError)
     may_raise(LinAlgError)
+    loop(0, types={"sorted_list": "list[tuple[array[real],array[real]]]", "index_mapping": "dict[int,int]"},
+         inv=lambda it: len(sorted_list) == it
+         and forall(0, it, lambda j: same_array(sorted_list[j][0], dec[j][0]) and same_array(sorted_list[j][1], dec[j][1]))
+         and forall_int(lambda j: (j in index_mapping) == (0 <= j and j < it))
+         and forall(0, it, lambda j: index_mapping[j] == dec[j][2]))
+    ghost(after="series_ids, offsets = find_offsets(", do=lambda: cut(forall_int(lambda h: implies(
+          h in head_mapping, forall(0, len(head_mapping[h]), lambda q: exists(0, len(series_ids), lambda j:
+          series_ids[j] == head_mapping[h][q][0]))))))
+    ghost(after="series_ids, offsets = find_offsets(", do=lambda: cut(forall(0, len(series_ids), lambda j:
+          0 <= series_ids[j] and series_ids[j] < len(series_list))))
+    ghost(before="head_mapping = build_head_mapping(", do=lambda: cut(forall(0, len(series_list), lambda j2: forall(0, j2, lambda j:
+          index_mapping[j] != index_mapping[j2]))))
+    ghost(before="head_mapping = build_head_mapping(", do=lambda: cut(forall(0, len(series_list), lambda j:
+          0 <= index_mapping[j] and index_mapping[j] < len(series_list))))
+    ghost(after="original_indices = [", do=lambda: cut(len(original_indices) == len(series_ids) and forall(
+          0, len(series_ids), lambda j: original_indices[j] == index_mapping[series_ids[j]])))
+    ghost(before="output_mapping = {}", let="g_items", do=lambda: list(head_mapping.items()))
+    loop(1, types={"output_mapping": "dict[int,list[tuple[int,real]]]"},
+         inv=lambda it: forall_int(lambda h: (h in output_mapping) == exists(0, it, lambda j: g_items[j][0] == h))
+         and forall_int(lambda h: implies(h in output_mapping, len(output_mapping[h]) == len(head_mapping[h])
+                                          and forall(0, len(head_mapping[h]), lambda q:
+                                                     output_mapping[h][q][0] == index_mapping[head_mapping[h][q][0]]
+                                                     and output_mapping[h][q][1] == head_mapping[h][q][1]))))
     ensures(len(result[1]) == len(result[0]))
     ensures(forall(0, len(result[0]), lambda i: 0 <= result[0][i] and result[0][i] < len(series_list)))
     ensures(forall(0, len(result[0]), lambda j: forall(0, j, lambda i: result[0][i] != result[0][j])))
@@ -85,8 +165,10 @@ def _find_offsets(head_mapping, result):
     requires(forall_int(lambda h: implies(h in head_mapping, len(head_mapping[h]) >= 1)))
     requires(forall_int(lambda h: implies(h in head_mapping, forall(0, len(head_mapping[h]), lambda q: forall(0, q, lambda p:
              head_mapping[h][p][0] != head_mapping[h][q][0])))))
-    requires(exists_int(lambda h: h in head_mapping and len(head_mapping[h]) >= 2))
+    # nothing to align (no level holds two series): max() of the empty id list raises ValueError
+    raises(ValueError, when=not exists_int(lambda h: h in head_mapping and len(head_mapping[h]) >= 2))
     may_raise(LinAlgError)
+    modifies("head_mapping")          # the levels with a single series are deleted from the caller's mapping
     ghost(before="for head_id, seq in list(head_mapping.items())", let="g_it0", do=lambda: list(head_mapping.items()))
     loop(0, inv=lambda it: forall_int(lambda h: (h in head_mapping) == (h in old(head_mapping) and not exists(0, it, lambda j:
          g_it0[j][0] == h and len(g_it0[j][1]) == 1)))
@@ -138,6 +220,7 @@ def _find_offsets(head_mapping, result):
     ghost(before="ATA = np.dot(", let="g_b", do=lambda: b)
     ensures(forall_int(lambda h: (h in g_hm) == (h in old(head_mapping) and len(old(head_mapping)[h]) >= 2)))
     ensures(forall_int(lambda h: implies(h in g_hm, g_hm[h] == old(head_mapping)[h])))
+    ensures(forall_int(lambda h: (h in head_mapping) == (h in g_hm)) and forall_int(lambda h: implies(h in g_hm, head_mapping[h] == g_hm[h])))
     # the series ids, ascending; the reference is the last
     ensures(len(result[0]) >= 1 and forall(0, len(result[0]), lambda j: forall(0, j, lambda i: result[0][i] < result[0][j])))
     ensures(forall_int(lambda s: exists(0, len(result[0]), lambda j: result[0][j] == s)
